@@ -2,6 +2,7 @@ use std::hash::{Hasher, Hash};
 use std::collections::{BTreeSet};
 use std::iter::FromIterator;
 use std::ops::Add;
+use std::cmp::Ordering;
 
 use regex::Regex;
 
@@ -55,6 +56,27 @@ impl<'a, T: ColumnProvider> ExpressionExecutionEngine<'a, T> {
                         left_value = ValueType::Timestamp.parse(&value).ok_or(EvaluationError::FailedToParseTimestamp)?;
                     }
                     _ => {}
+                }
+
+                let numeric_ordering = match (&left_value, &right_value) {
+                    (Value::Int(x), Value::Float(y)) => Some(compare_int_with_float(*x, y.0)),
+                    (Value::Float(x), Value::Int(y)) => Some(compare_int_with_float(*y, x.0).reverse()),
+                    _ => None
+                };
+
+                if let Some(ordering) = numeric_ordering {
+                    return Ok(
+                        Value::Bool(
+                            match operator {
+                                CompareOperator::Equal => ordering == Ordering::Equal,
+                                CompareOperator::NotEqual => ordering != Ordering::Equal,
+                                CompareOperator::GreaterThan => ordering == Ordering::Greater,
+                                CompareOperator::GreaterThanOrEqual => ordering != Ordering::Less,
+                                CompareOperator::LessThan => ordering == Ordering::Less,
+                                CompareOperator::LessThanOrEqual => ordering != Ordering::Greater
+                            }
+                        )
+                    );
                 }
 
                 if !left_value.is_null() && !right_value.is_null() {
@@ -638,6 +660,29 @@ impl std::fmt::Display for EvaluationError {
     }
 }
 
+
+// Compares an INT with a REAL by numeric value, without rounding the integer (NaN is ordered last, as for REAL values).
+fn compare_int_with_float(x: i64, y: f64) -> Ordering {
+    if y.is_nan() {
+        return Ordering::Less;
+    }
+
+    // 2^63 as float. Every float in [-2^63, 2^63) has an integer part that fits in an i64.
+    let limit = 9223372036854775808.0f64;
+    if y >= limit {
+        return Ordering::Less;
+    }
+
+    if y < -limit {
+        return Ordering::Greater;
+    }
+
+    let y_floor = y.floor();
+    match x.cmp(&(y_floor as i64)) {
+        Ordering::Equal if y > y_floor => Ordering::Less,
+        ordering => ordering
+    }
+}
 
 pub fn unique_values(values: &mut Vec<Value>) {
     let unique_values = std::mem::take(values);
